@@ -243,7 +243,7 @@ class C05(Check):
             c2 = late['client'] = nodeworld.RawClient(world)
             r2 = c2.request('activate', timeout=60)
             late['activated'] = r2 is not None and r2[2].raw == b'active'
-            sim.count('c05.late-activation', 'fault.parameter-callback-raised', 'c05.device-timestamp')
+            sim.count('c05.late-activation')
         lt = None
         if shape.get('late_activate') is not None:
             lt = threading.Thread(target=late_client, name='late-client')
